@@ -14,4 +14,7 @@ let table : (string * (z list list list -> z list list)) list = [
   ("dl_model", e_dl_model);
   ("loss_model", e_loss_model);
   ("c13_model", e_c13_model);
+  ("tbf_model", e_tbf_model);
+  ("rdelay_model", e_rdelay_model);
+  ("delay_oracle", e_delay_oracle);
 ]
